@@ -55,6 +55,8 @@ pub struct Loader {
     rules: HashMap<String, SmallMap<String, eval::EvalString<String>>>,
     pools: SmallMap<String, usize>,
     builddir: Option<String>,
+    /// Files currently being parsed, outermost first, to detect include cycles.
+    include_stack: Vec<FileId>,
 }
 
 impl Loader {
@@ -209,12 +211,21 @@ impl Loader {
             match stmt {
                 Statement::Include(in_path) | Statement::Subninja(in_path) => {
                     let id = self.evaluate_path(in_path, &[&parser.vars])?;
+                    if self.include_stack.contains(&id) {
+                        bail!(
+                            "{}: include cycle: {} is already being read",
+                            filename.display(),
+                            self.graph.file(id).name
+                        );
+                    }
                     let (path, bytes) = self.read_file_by_id(id)?;
                     let bytes = std::rc::Rc::new(bytes);
                     let mut sub_parser = parse::Parser::new(&bytes);
 
                     sub_parser.inherit(&parser);
+                    self.include_stack.push(id);
                     self.parse_with_parser(&mut sub_parser, path, envs)?;
+                    self.include_stack.pop();
                 }
 
                 Statement::Default(defaults) => {
@@ -266,6 +277,7 @@ pub fn read(build_filename: &str) -> anyhow::Result<State> {
         let (path, bytes) = loader.read_file_by_id(id)?;
         let mut parser = parse::Parser::new(&bytes);
 
+        loader.include_stack.push(id);
         loader.parse_with_parser(&mut parser, path, &[])
     })?;
 
